@@ -120,17 +120,29 @@ class Prop:
             cmd = [exe, "--seed", str(seed), "--cases", str(cases), "--tier", tier, "--out", out,
                    "--only", str(r["case"])] + st.full_args()
             subprocess.run(cmd, env=env, stdout=subprocess.DEVNULL, stderr=subprocess.DEVNULL, cwd=out)
-            again = False
+            again, rerun, finished = False, [], False
             try:
                 for line in open(os.path.join(out, "only%d.jsonl" % r["case"])):
-                    if json.loads(line).get("t") == "hang":
+                    x = json.loads(line)
+                    if x.get("t") == "hang":
                         again = True
+                    elif x.get("t") in ("viol", "crash"):
+                        rerun.append(x)
+                    elif x.get("t") == "stats":
+                        finished = True
             except Exception:
                 pass
             if not again:
                 confirmed[ctx] -= 1
-                r["t"] = "timeout"
-                r["msg"] = "CPU limit hit once but not reproduced"
+                if finished:
+                    # the case ran to completion under the same oracles when re-run alone: it is evaluated, whatever it reported is
+                    # taken from the re-run, and the first attempt is only counted
+                    r["t"] = "rerun-ok"
+                    res["records"] += rerun
+                    res["stats"]["cpu_limit_hits_completed_on_rerun"] = res["stats"].get("cpu_limit_hits_completed_on_rerun", 0) + 1
+                else:
+                    r["t"] = "timeout"
+                    r["msg"] = "CPU limit hit once; the re-run neither reproduced it nor finished"
 
     def replay(self, rep, rundir):
         stname = rep.get("stage") or self.stages[0].name
